@@ -640,6 +640,31 @@ class Item:
             self.rewrite(s0, bs, hdr + "let vx_r = ", "R3-find_map")
             self.rewrite(be, semi + 1, tail, "R3-find_map")
 
+    def r3_map_collect(self, fn, k):
+        """let V: T = RECV.map(|P| BODY).collect();  ==>  explicit loop over the iterator RECV pushing BODY (in place):
+        let mut V: T = Vec::new(); let mut vx_mc = RECV; loop { let Some(P) = vx_mc.next() else { break; }; let vx_e = BODY; V.push(vx_e); }
+        (what Iterator::map + collect::<Vec<_>>() do; RECV itself stays in place so that R4 shims can apply to it)"""
+        k0, _, bo, end, _ = self.fn_span(fn)
+        hits = list(re.finditer(r"\.\s*map\s*\(", self.m[bo:end]))
+        if len(hits) < k:
+            raise Undecided("LOST-ANCHOR: R3 map-collect #%d in fn %s of %s" % (k, fn, self.where()))
+        h = hits[k - 1]
+        par = bo + h.end() - 1
+        p, bs, be, close = self._closure_after(par)
+        s0 = self._stmt_start(bo + h.start())
+        semi = self.m.find(";", close)
+        if not re.match(r"\s*\.\s*collect\s*\(\s*\)\s*$", self.text[close + 1:semi]):
+            raise Undecided("R3 map-collect: `.collect()` expected after the closure at %s:%d" % (self.relpath, self.line_of(close)))
+        head = self.text[s0:bo + h.start()]
+        mo = re.match(r"let\s+([A-Za-z_][A-Za-z0-9_]*)\s*(:\s*[^=]+?)?\s*=\s*", head, re.S)
+        if not mo:
+            raise Undecided("R3 map-collect: statement shape not recognised at %s:%d" % (self.relpath, self.line_of(s0)))
+        var, ty = mo.group(1), (mo.group(2) or "")
+        r0 = s0 + mo.end()
+        self.rewrite(s0, r0, "let mut %s%s = Vec::new();\n  let mut vx_mc = " % (var, ty), "R3-map-collect")
+        self.rewrite(bo + h.start(), bs, ";/*@pre*/\n  loop\n  /*@loop*/\n  {\n    let Some(%s) = vx_mc.next() else { break; };/*@body*/\n    let vx_e = " % p, "R3-map-collect")
+        self.rewrite(be, semi + 1, ";\n    %s.push(vx_e);\n  }" % var, "R3-map-collect")
+
     def r3_for_index(self, fn, k, mode="ref"):
         """for X in RECV { BODY }  (RECV a slice/Vec/&Vec expression) ==> index while-loop;
         `continue` inside BODY is preceded by the index increment; BODY stays in place.
